@@ -721,6 +721,11 @@ TRANSLATED = [
     'pyramid/session.py:BaseCookieSessionFactory.CookieSession.new_csrf_token',
     'pyramid/session.py:BaseCookieSessionFactory.CookieSession.get_csrf_token',
     'pyramid/session.py:BaseCookieSessionFactory.CookieSession._set_cookie',
+    # factory layer (harness/c10/translate_factory.py)
+    'pyramid/session.py:_CanonicalBase64Serializer.__init__',
+    'pyramid/session.py:_CanonicalBase64Serializer.dumps',
+    'pyramid/session.py:_CanonicalBase64Serializer.loads',
+    'pyramid/session.py:SignedCookieSessionFactory',
 ]
 
 SESS = ('s0', 'SESSOBJ')
